@@ -21,17 +21,22 @@ disabled, the chain verified for the host name").  Everything is quantified over
 ALL configurations `c : Cfg` (scheme, StartTLS, no_tls_verify, own connector, conn_timeout) and ALL
 server behaviours `s : Server`: arbitrary cleartext bytes cut into arbitrary read chunks (any result
 code, garbage, frames for other IDs, forged frames behind the response), close / reset / silence,
-every handshake behaviour and certificate verdict, and both `select!` orders of the first turn.
+every handshake behaviour and certificate verdict, and every `select!` order of the turn (`early`).
+The loop of the turn runs on fuel; `awaitResponse_fuel` (Lemmas/TlsSetup.lean) shows that the fuel
+`afterRequest` supplies is never exhausted.
 
 "Verification explicitly disabled" is `c.verifyOff`: `no_tls_verify` with the library's own
 connector, or the caller's connector accepting invalid certificates (`set_connector` overrides
 `no_tls_verify`: `create_tls_stream` does not look at it then).
 
-Outcomes other than Ok/Err which the code has and the model keeps: `hang` (the server closes, stays
-silent, or answers under another message ID, and no `conn_timeout` is set: the future never
-resolves; with `conn_timeout` it is `Err(Timeout)`) and `panic` (a frame with the request's ID whose
-protocolOp is not a well-formed LDAPResult: `expect("ldap result")` in `op_call`).  Neither hands
-back a handle.
+Outcomes other than Ok/Err which the code has and the model keeps: `hang` (the server stays silent -
+possibly after frames for other message IDs, which are dropped - and the caller set no
+`conn_timeout`: the future does not resolve; with `conn_timeout` it is `Err(Timeout)`; waiting without
+a limit is the caller's choice) and `panic` (a frame with the request's ID whose protocolOp is not a
+well-formed LDAPResult: the documented `From<Tag>` panic `expect("ldap result")` in `op_call`).
+Neither hands back a handle.  A peer which CLOSES (or resets) instead of answering is an `Err` at
+once, with or without `conn_timeout` (/repo commit "fix: StartTLS establishment fails instead of
+hanging when the peer closes or answers another ID").
 -/
 import Ldap3V.Lemmas.TlsSetupWire
 namespace Ldap3V
@@ -49,7 +54,7 @@ theorem C17_cleartext_writes (lib : TlsLib) (c : Cfg) (s : Server) :
     startTlsReq = [0x30, 0x1d, 0x02, 0x01, 0x01, 0x77, 0x18, 0x80, 0x16,
       0x31, 0x2e, 0x33, 0x2e, 0x36, 0x2e, 0x31, 0x2e, 0x34, 0x2e, 0x31, 0x2e,
       0x31, 0x34, 0x36, 0x36, 0x2e, 0x32, 0x30, 0x30, 0x33, 0x37] := by
-  have h := (establish_invariants lib c s).2.2.2.2
+  have h := (establish_invariants lib c s).2.2.2
   have hmode : c.mode = .startTls → c.scheme = .ldap ∧ c.starttls = true := by
     unfold Cfg.mode; cases c.scheme <;> cases c.starttls <;> simp
   refine ⟨?_, ?_, by decide⟩
@@ -72,26 +77,27 @@ theorem C17_ok_implies_secure (lib : TlsLib) (hlib : lib.Sound) (c : Cfg) (s : S
     ((establish lib c s).outcome = .okPlain ↔ c.mode = .plain) ∧
     ((establish lib c s).hasTls = true ↔ (establish lib c s).outcome = .okSecure) := by
   have inv := establish_invariants lib c s
-  refine ⟨fun hok => ?_, inv.2.2.2.1, inv.2.2.1⟩
+  refine ⟨fun hok => ?_, inv.2.2.1, inv.2.1⟩
   have hl : ∃ stale, lib stale s.peer c.verifyOff = .ok ∧ c.mode ≠ .plain := by
-    rcases (establish_ok_iff lib c s).mp hok with ⟨hm, h⟩ | ⟨hm, _, _, _, _, unread, _, _, _, _, h⟩
+    rcases (establish_ok_iff lib c s).mp hok with ⟨hm, h⟩ | ⟨hm, _, _, _, _, _, unread, _, _, _, _, h⟩
     · exact ⟨_, h, by rw [hm]; simp⟩
     · exact ⟨_, h, by rw [hm]; simp⟩
   obtain ⟨stale, hv, hm⟩ := hl
   obtain ⟨h1, h2⟩ := hlib stale s.peer c.verifyOff hv
-  refine ⟨h1, ?_, inv.2.2.1.mpr hok, inv.1, hm⟩
+  refine ⟨h1, ?_, inv.2.1.mpr hok, inv.1, hm⟩
   cases hoff : c.verifyOff with
   | true => exact Or.inl rfl
   | false => exact Or.inr (h2 hoff)
 
 /-- EXACTLY when establishment succeeds with TLS requested: `ldaps` and the library accepts, or
-StartTLS and the first frame `Framed` decodes after the request carries ID 1, converts to an
-LDAPResult with code 0, and the library accepts (reading first whatever cleartext is still unread). -/
+StartTLS and the turn ends with a frame carrying ID 1 (frames for other IDs before it are dropped)
+which converts to an LDAPResult with code 0, and the library accepts (reading first whatever
+cleartext is still unread). -/
 theorem C17_ok_iff (lib : TlsLib) (c : Cfg) (s : Server) :
     (establish lib c s).outcome = .okSecure ↔
       (c.mode = .direct ∧ lib s.chunks.flatten s.peer c.verifyOff = .ok) ∨
-      (c.mode = .startTls ∧ ∃ op ctl consumed rest unread r,
-          answer s = some (.frame 1 op ctl consumed rest unread) ∧ resultExt op = some r ∧ r.rc = 0 ∧
+      (c.mode = .startTls ∧ ∃ op sk skb resp rest unread r,
+          answer s = some (.response op sk skb resp rest unread) ∧ resultExt op = some r ∧ r.rc = 0 ∧
           lib unread.flatten s.peer c.verifyOff = .ok) :=
   establish_ok_iff lib c s
 
@@ -99,12 +105,17 @@ theorem C17_ok_iff (lib : TlsLib) (c : Cfg) (s : Server) :
 any kind - whenever
   (a) the handshake does not complete, or
   (b) verification is not disabled and the certificate is not trusted for the host name;
-and with StartTLS, for the answer `x` to the request as the frame decoder sees it,
-  (c) a non-zero result code `rc` (any `rc`)      ⇒ `Err(LdapResult rc)`,
-  (d) garbage / truncated-then-EOF / reset        ⇒ `Err` (the driver ended: `ResultRecv`),
-  (e) close, silence, or a frame for another ID   ⇒ a stall: `Err(Timeout)` under `conn_timeout`, else `hang`,
-  (f) ID 1 but not an LDAPResult                  ⇒ `panic` on the caller's task,
-  (g) the request was never sent (socket first)   ⇒ a stall or `Err`, and nothing was written.
+and with StartTLS, for the way `x` the turn ends after the request (frames for other message IDs are
+dropped and do not end it),
+  (c) a response with a non-zero result code `rc` (any `rc`)   ⇒ `Err(LdapResult rc)`,
+  (d) close / reset / garbage / truncated-then-EOF (with or without dropped frames before)
+                                                               ⇒ `Err` at once (the driver ended: `ResultRecv`),
+      and a peer which does not stay silent (`atEnd ≠ silent`) ALWAYS ends in (c), (d), (f) or a
+      success response: it can never make the client wait,
+  (e) silence (`atEnd = silent`, nothing with ID 1 so far)     ⇒ a stall: `Err(Timeout)` under `conn_timeout`,
+                                                                 else the future does not resolve,
+  (f) ID 1 but not an LDAPResult                               ⇒ `panic` on the caller's task,
+  (g) the request was never sent (socket served first, ended in close/garbage) ⇒ `Err`, nothing written.
 In all of (c)-(g) the only cleartext write is the request (none in (g)) and `has_tls` stays false. -/
 theorem C17_failures (lib : TlsLib) (hlib : lib.Sound) (c : Cfg) (s : Server) (hreq : c.mode ≠ .plain) :
     (establish lib c s).outcome ≠ .okPlain ∧
@@ -112,15 +123,15 @@ theorem C17_failures (lib : TlsLib) (hlib : lib.Sound) (c : Cfg) (s : Server) (h
     (c.verifyOff = false → s.peer.certOk = false → (establish lib c s).outcome ≠ .okSecure) ∧
     (c.mode = .startTls →
       (∀ x, answer s = some x →
-        (∀ id op ctl k rest unread, x = .frame id op ctl k rest unread →
-          (id = 1 → ∀ r, resultExt op = some r → r.rc ≠ 0 →
-            (establish lib c s).outcome = .err (.ldapResult r.rc)) ∧
-          (id ≠ 1 → (establish lib c s).outcome = stall c) ∧
-          (id = 1 → resultExt op = none → (establish lib c s).outcome = .panic)) ∧
-        (x = .error → (establish lib c s).outcome = .err .driverEnded) ∧
-        (x = .eof ∨ x = .pending → (establish lib c s).outcome = stall c)) ∧
+        (∀ op sk skb resp rest unread, x = .response op sk skb resp rest unread →
+          (∀ r, resultExt op = some r → r.rc ≠ 0 → (establish lib c s).outcome = .err (.ldapResult r.rc)) ∧
+          (resultExt op = none → (establish lib c s).outcome = .panic)) ∧
+        (∀ sk skb, x = .driverErr sk skb → (establish lib c s).outcome = .err .driverEnded) ∧
+        (∀ sk skb, x = .waiting sk skb → (establish lib c s).outcome = stall c ∧ s.atEnd = .silent) ∧
+        (s.atEnd ≠ .silent → (∃ sk skb, x = .driverErr sk skb) ∨
+          (∃ op sk skb resp rest unread, x = .response op sk skb resp rest unread))) ∧
       (answer s = none → (establish lib c s).cleartextWrites = [] ∧
-        ((establish lib c s).outcome = stall c ∨ (establish lib c s).outcome = .err .driverEnded))) ∧
+        (establish lib c s).outcome = .err .driverEnded)) ∧
     (stall c = .hang ∨ stall c = .err .timeout) := by
   have sec := (C17_ok_implies_secure lib hlib c s)
   refine ⟨fun h => hreq (sec.2.1.mp h), fun hh hok => hh (sec.1 hok).1, ?_, ?_, stall_cases c⟩
@@ -131,9 +142,13 @@ theorem C17_failures (lib : TlsLib) (hlib : lib.Sound) (c : Cfg) (s : Server) (h
   · intro hm
     refine ⟨fun x hx => ?_, establish_never_sent lib c s hm⟩
     have ha := establish_answer lib c s hm x hx
-    refine ⟨fun id op ctl k rest unread hxe => ?_, ha.2.1, ha.2.2.1⟩
-    have hf := ha.2.2.2 id op ctl k rest unread hxe
-    exact ⟨fun hid r hr hrc => ((hf.2.2 hid r hr).1 hrc), hf.1, hf.2.1⟩
+    refine ⟨fun op sk skb resp rest unread hxe => ?_, ha.2.1, ha.2.2.1, fun hne => ?_⟩
+    · have hf := ha.2.2.2 op sk skb resp rest unread hxe
+      exact ⟨fun r hr hrc => ((hf.2 r hr).1 hrc), hf.1⟩
+    · cases x with
+      | driverErr sk skb => exact Or.inl ⟨sk, skb, rfl⟩
+      | waiting sk skb => exact absurd (ha.2.2.1 sk skb rfl).2 hne
+      | response op sk skb resp rest unread => exact Or.inr ⟨op, sk, skb, resp, rest, unread, rfl⟩
 
 /-- Clause 3 at the octet level, refusal.  The server answers the request with ANY well-formed
 RFC 4511 LDAPMessage `m` for message ID 1 carrying ANY well-formed response `r` (whichever of the
@@ -142,7 +157,7 @@ result code below 2^32, in ANY legal BER encoding `e`, cut over segments in ANY 
 followed by ANY bytes `y` in the same segment (e.g. a forged success) and ANY further segments:
 establishment fails with exactly that code, only the request was written, no TLS. -/
 theorem C17_refused_wire (lib : TlsLib) (c : Cfg) (s : Server) (m : WireMsg) (r : Resp) (e q y : Bytes)
-    (ps more : List Bytes) (hmode : c.mode = .startTls) (hs : s.readFirst = false)
+    (ps more : List Bytes) (hmode : c.mode = .startTls) (hs : s.early = 0)
     (hc : s.chunks = ps ++ (q ++ y) :: more) (hcut : ps.flatten ++ q = e) (hq : q ≠ [])
     (hop : m.op = respOp r) (hm : m.WF) (hid : m.id = 1) (hr : WFResp r) (he : Enc m.tlv e)
     (hsz : (e ++ y).length < 18446744073709551616) (hrc : r.rc ≠ 0) :
@@ -151,25 +166,28 @@ theorem C17_refused_wire (lib : TlsLib) (c : Cfg) (s : Server) (m : WireMsg) (r 
   refused_wire lib c s m r e q y ps more hmode hs hc hcut hq hop hm hid hr he hsz hrc
 
 /-- Clause 4.  When StartTLS establishment succeeds, every cleartext byte the server sent is
-accounted for: `chunks.flatten = consumed ++ discarded ++ tlsStale`, where `consumed` is exactly one
-frame - the StartTLS response (ID 1, code 0), the ONLY frame ever decoded from cleartext -,
-`discarded` is what `Framed` had read behind it (dropped with `parts.read_buf`), and `tlsStale` was
-still in the socket and was read by the TLS library, which accepted it as part of the handshake.
-The LDAP decoder of the protected session starts from an EMPTY buffer over the TLS stream.  On
-every path whatsoever at most one cleartext frame is decoded.  With the observed library (`refLib`:
-stale cleartext is a fatal handshake error) `tlsStale = []`: every injected byte was in the dropped
-buffer, or establishment failed. -/
+accounted for: `chunks.flatten = consumed ++ discarded ++ tlsStale`, where `consumed` ends with
+`response` - the StartTLS response (ID 1, code 0), the LAST frame ever decoded from cleartext and the
+only one handed to anybody (the frames `pre` before it carried other IDs or came before the request:
+they are dropped) -, `discarded` is what `Framed` had read behind the response (dropped with
+`parts.read_buf`), and `tlsStale` was still in the socket and was read by the TLS library, which
+accepted it as part of the handshake.  The LDAP decoder of the protected session starts from an
+EMPTY buffer over the TLS stream (on every path).  With the observed library (`refLib`: stale
+cleartext is a fatal handshake error) `tlsStale = []`: every byte injected behind the response was
+in the dropped buffer, or establishment failed. -/
 theorem C17_injected_cleartext_not_interpreted (lib : TlsLib) (c : Cfg) (s : Server) :
-    (establish lib c s).decoded.length ≤ 1 ∧ (establish lib c s).sessionBuf = [] ∧
+    (establish lib c s).sessionBuf = [] ∧
     (c.mode = .startTls → (establish lib c s).outcome = .okSecure →
-      ∃ op ctl r, (establish lib c s).decoded = [(1, op)] ∧ resultExt op = some r ∧ r.rc = 0 ∧
+      ∃ pre preb op ctl r, (establish lib c s).decoded = pre ++ [(1, op)] ∧
+        (establish lib c s).consumed = preb ++ (establish lib c s).response ∧
+        resultExt op = some r ∧ r.rc = 0 ∧
         s.chunks.flatten = (establish lib c s).consumed ++ (establish lib c s).discarded ++ (establish lib c s).tlsStale ∧
-        decodeInner ((establish lib c s).consumed ++ (establish lib c s).discarded) =
-          .frame 1 op ctl (establish lib c s).consumed.length ∧
+        decodeInner ((establish lib c s).response ++ (establish lib c s).discarded) =
+          .frame 1 op ctl (establish lib c s).response.length ∧
         lib (establish lib c s).tlsStale s.peer c.verifyOff = .ok) ∧
     (lib = refLib → (establish lib c s).outcome = .okSecure → (establish lib c s).tlsStale = []) := by
   have inv := establish_invariants lib c s
-  refine ⟨inv.2.1, inv.1, fun hm hok => establish_ok_bytes lib c s hm hok, ?_⟩
+  refine ⟨inv.1, fun hm hok => establish_ok_bytes lib c s hm hok, ?_⟩
   intro hl hok
   subst hl
   cases hm : c.mode with
@@ -180,7 +198,7 @@ theorem C17_injected_cleartext_not_interpreted (lib : TlsLib) (c : Cfg) (s : Ser
     rw [(tlsPhase_fields refLib c s _ _).2.2.2.2.2]
     exact refLib_ok_stale _ _ _ hok
   | startTls =>
-    obtain ⟨_, _, _, _, _, _, _, _, h⟩ := establish_ok_bytes refLib c s hm hok
+    obtain ⟨_, _, _, _, _, _, _, _, _, _, _, h⟩ := establish_ok_bytes refLib c s hm hok
     exact refLib_ok_stale _ _ _ h
 
 /-- Clause 4 at the octet level.  The server answers with ANY well-formed success response for ID 1
@@ -189,7 +207,7 @@ frames - right behind it in the same segment, and ANY bytes in later segments `m
 is the only frame decoded, `y` is exactly the dropped buffer, `more` goes to the TLS library, the
 session starts with an empty buffer, and the outcome is the library's verdict. -/
 theorem C17_injected_wire (lib : TlsLib) (c : Cfg) (s : Server) (m : WireMsg) (r : Resp) (e q y : Bytes)
-    (ps more : List Bytes) (hmode : c.mode = .startTls) (hs : s.readFirst = false)
+    (ps more : List Bytes) (hmode : c.mode = .startTls) (hs : s.early = 0)
     (hc : s.chunks = ps ++ (q ++ y) :: more) (hcut : ps.flatten ++ q = e) (hq : q ≠ [])
     (hop : m.op = respOp r) (hm : m.WF) (hid : m.id = 1) (hr : WFResp r) (he : Enc m.tlv e)
     (hsz : (e ++ y).length < 18446744073709551616) (hrc : r.rc = 0) :
@@ -199,6 +217,25 @@ theorem C17_injected_wire (lib : TlsLib) (c : Cfg) (s : Server) (m : WireMsg) (r
     (establish lib c s).outcome = (match lib more.flatten s.peer c.verifyOff with
       | .ok => .okSecure | .error => .err .nativeTls | .pending => stall c) :=
   success_wire lib c s m r e q y ps more hmode hs hc hcut hq hop hm hid hr he hsz hrc
+
+/-- A response for ANOTHER message ID does not end the exchange: any well-formed message `m0` with
+ID ≠ 1 sent in front of any well-formed success response for ID 1 (one segment, any bytes `y`
+behind, any further segments) is decoded and delivered to nobody, and the response completes the
+StartTLS exchange exactly as if `m0` had not been sent. -/
+theorem C17_foreign_id_ignored_wire (lib : TlsLib) (c : Cfg) (s : Server) (m0 m : WireMsg) (r : Resp)
+    (e0 e y : Bytes) (more : List Bytes) (hmode : c.mode = .startTls) (hs : s.early = 0)
+    (hc : s.chunks = (e0 ++ (e ++ y)) :: more)
+    (hm0 : m0.WF) (hid0 : m0.id ≠ 1) (he0 : Enc m0.tlv e0)
+    (hop : m.op = respOp r) (hm : m.WF) (hid : m.id = 1) (hr : WFResp r) (he : Enc m.tlv e)
+    (hsz : (e0 ++ (e ++ y)).length < 18446744073709551616) (hrc : r.rc = 0) :
+    (establish lib c s).cleartextWrites = [startTlsReq] ∧
+    (establish lib c s).decoded = [((m0.id : Int), m0.op), (1, respOp r)] ∧
+    (establish lib c s).consumed = e0 ++ e ∧ (establish lib c s).response = e ∧
+    (establish lib c s).discarded = y ∧ (establish lib c s).tlsStale = more.flatten ∧
+    (establish lib c s).sessionBuf = [] ∧
+    (establish lib c s).outcome = (match lib more.flatten s.peer c.verifyOff with
+      | .ok => .okSecure | .error => .err .nativeTls | .pending => stall c) :=
+  foreign_then_success_wire lib c s m r e y more m0 e0 hmode hs hc hm0 hid0 he0 hop hm hid hr he hsz hrc
 
 /-- Clause 5.  Scheme `ldap` without StartTLS: the property does not apply; the plain handle is
 handed back at once, nothing is written or read during establishment, `has_tls` is false. -/
@@ -251,18 +288,34 @@ example : (establish refLib exStartTls { chunks := [exSuccess], atEnd := .eof, p
     -- `no_tls_verify` is ignored when the caller supplies a (verifying) connector
     (establish refLib { exStartTls with noVerify := true, connector := .custom false }
         { chunks := [exSuccess], atEnd := .eof, peer := ⟨.completes, false⟩ }).outcome = .err .nativeTls := by decide
--- garbage, close, silence, other ID, not-a-result
+-- garbage, close (an error at once, with or without conn_timeout), reset, silence, not-a-result
 example : (establish refLib exStartTls { chunks := [[0x30, 0x00]], atEnd := .eof, peer := exGoodPeer }).outcome = .err .driverEnded ∧
-    (establish refLib exStartTls { chunks := [], atEnd := .eof, peer := exGoodPeer }).outcome = .hang ∧
-    (establish refLib { exStartTls with connTimeout := true } { chunks := [], atEnd := .eof, peer := exGoodPeer }).outcome = .err .timeout ∧
+    (establish refLib exStartTls { chunks := [], atEnd := .eof, peer := exGoodPeer }).outcome = .err .driverEnded ∧
+    (establish refLib { exStartTls with connTimeout := true } { chunks := [], atEnd := .eof, peer := exGoodPeer }).outcome = .err .driverEnded ∧
     (establish refLib exStartTls { chunks := [], atEnd := .reset, peer := exGoodPeer }).outcome = .err .driverEnded ∧
-    (establish refLib exStartTls { chunks := [exForged ++ exSuccess], atEnd := .silent, peer := exGoodPeer }).outcome = .hang ∧
+    (establish refLib exStartTls { chunks := [], atEnd := .silent, peer := exGoodPeer }).outcome = .hang ∧
+    (establish refLib { exStartTls with connTimeout := true } { chunks := [], atEnd := .silent, peer := exGoodPeer }).outcome = .err .timeout ∧
     (establish refLib exStartTls { chunks := [[0x30, 0x05, 0x02, 0x01, 0x01, 0x78, 0x00]], atEnd := .silent, peer := exGoodPeer }).outcome = .panic := by
   decide
--- the socket is served before the request: nothing at all is written
+-- a frame for another ID (here ID 2) is dropped: followed by the response the exchange completes,
+-- followed by silence the client waits, followed by close it is an error
 example :
-    let R := establish refLib exStartTls { readFirst := true, chunks := [exSuccess], atEnd := .eof, peer := exGoodPeer }
-    R.outcome = .hang ∧ R.cleartextWrites = [] := by decide
+    let R := establish refLib exStartTls { chunks := [exForged ++ exSuccess ++ exForged], atEnd := .eof, peer := exGoodPeer }
+    R.outcome = .okSecure ∧ R.decoded.length = 2 ∧ R.consumed = exForged ++ exSuccess ∧ R.response = exSuccess ∧
+    R.discarded = exForged ∧ R.sessionBuf = [] := by decide
+example : (establish refLib exStartTls { chunks := [exForged], atEnd := .silent, peer := exGoodPeer }).outcome = .hang ∧
+    (establish refLib exStartTls { chunks := [exForged], atEnd := .eof, peer := exGoodPeer }).outcome = .err .driverEnded := by decide
+-- the socket is served before the request (`early`): the frame - even one with ID 1 - is dropped;
+-- the response sent once more afterwards completes the exchange; close instead: error, nothing written
+example :
+    let R := establish refLib exStartTls { early := 1, chunks := [exSuccess], atEnd := .silent, peer := exGoodPeer }
+    R.outcome = .hang ∧ R.cleartextWrites = [startTlsReq] ∧ R.decoded.length = 1 := by decide
+example :
+    let R := establish refLib exStartTls { early := 1, chunks := [exSuccess ++ exSuccess], atEnd := .eof, peer := exGoodPeer }
+    R.outcome = .okSecure ∧ R.decoded.length = 2 := by decide
+example :
+    let R := establish refLib exStartTls { early := 1, chunks := [], atEnd := .eof, peer := exGoodPeer }
+    R.outcome = .err .driverEnded ∧ R.cleartextWrites = [] := by decide
 -- ldaps: no cleartext at all (StartTLS setting overridden); cleartext from the server breaks the handshake
 example :
     let R := establish refLib exLdaps { chunks := [], atEnd := .eof, peer := exGoodPeer }
